@@ -2,6 +2,7 @@
 import re
 from ..core import var_def, norm, relloc, live, calls, evs, Broken, value_origin, Tracer, fmt_trace, rooted, has_back_edge, local_env, subst_path, efield, short, tests, cond_event
 from ..rules import *
+from .C06 import consistent
 
 EXPLANATION = ('Static analysis of the scheduling discipline: every function that makes a ready handle run branches on coroutine mode and, while a coroutine activation is on the '
                'stack, only enqueues (no direct resume, no nested activation), otherwise runs the handle inside install_queue_and_call; every other direct '
@@ -84,7 +85,7 @@ def mode_split(ctx, db, rid_='C05.mode-split'):
                    'the inactive edge a handle runs only inside a callable given to install_queue_and_call', floor=4)
     for name in ('cocls::coro_queue::resume', 'cocls::suspend_point::suspend_now', 'cocls::suspend_point::await_suspend', 'cocls::coro_queue::create_suspend_point'):
         for f, trs in traces_of(db, name, depth=1, inline=inline_only('cocls::coro_queue::is_active'), per_instance=False, maxvisit=2):
-            trs = [t for t in trs if live(t)]
+            trs = [t for t in trs if live(t) and consistent(t)]
             ctx.paths(rid, len(trs))
             bad = None; na = ni = 0
             for tr in trs:
@@ -176,15 +177,9 @@ def direct_resume(ctx, db, rid_='C05.direct-resume'):
                 continue
             seen.add(site)
             o = value_origin(f, f.ev(e.get('recv_ev'))) if e.get('recv_ev') is not None and f.ev(e.get('recv_ev')) is not None else value_origin(f, e.get('recv') or '')
-            oc = norm((o or {}).get('callee') or '')
-            if o is not None and o.get('callee_key') and oc.startswith('cocls::'):
-                # a library helper that just hands out a handle (get_handle() { return coroutine_handle<P>::from_promise(*this); }): the kind of what it returns
-                g_ = db.get(o['callee_key'], o.get('callee_inst'))
-                rets_ = [x for x in (g_.events() if g_ is not None else []) if x.k == 'return']
-                if g_ is not None and len(rets_) == 1 and rets_[0].get('ret_ev') is not None and g_.ev(rets_[0]['ret_ev']) is not None:
-                    o2 = value_origin(g_, g_.ev(rets_[0]['ret_ev']))
-                    if o2 is not None and norm(o2.get('callee') or '') in ('std::coroutine_handle::from_promise',):
-                        oc = norm(o2['callee'])
+            # a library helper that just hands out a handle (get_handle() { return coroutine_handle<P>::from_promise(*this); }, possibly through
+            # a second helper that checks done() first): the kind of what it returns
+            oc = _handle_source(db, o)
             kind = None
             if f['nname'] == 'cocls::coro_queue::queue_impl::flush_queue':
                 kind = 'K2 drain loop'
@@ -207,7 +202,7 @@ def direct_resume(ctx, db, rid_='C05.direct-resume'):
                         if ce.k == 'call' and ce.get('callee_key') == f['key'] and idx is not None and idx < len(ce.get('args') or []):
                             a = ce['args'][idx]
                             ao = value_origin(g, g.ev(a['ev'])) if a.get('ev') is not None and g.ev(a['ev']) is not None else value_origin(g, a.get('path') or '')
-                            kinds.add(norm((ao or {}).get('callee') or '') or '?')
+                            kinds.add(_handle_source(db, ao) or '?')
                 if kinds and kinds <= {'cocls::async::start_promise'}:
                     kind = 'K3 start of a not-yet-started child (every caller passes the result of start_promise)'
                 elif kinds and kinds <= {'std::coroutine_handle::from_promise', 'cocls::generator::promise_type::next_async'}:
@@ -217,6 +212,27 @@ def direct_resume(ctx, db, rid_='C05.direct-resume'):
             ctx.ob(rid, f, e['loc'], kind is not None, 'direct resume of %s is of kind %s' % (e.get('recv'), kind or 'UNKNOWN: it may pre-empt a running coroutine with a ready one'),
                    desc='direct resume in %s of a handle of unknown kind' % f['nname'])
     ctx.cover['direct_resume_sites'] = len(seen)
+
+
+HANDLE_SOURCES = ('cocls::async::start_promise', 'std::coroutine_handle::from_promise', 'cocls::generator::promise_type::next_async')
+
+
+def _handle_source(db, o, depth=4):
+    """normalised name of the function that produced a handle whose origin event is `o`, looking through library helpers that only hand on a
+    handle obtained elsewhere: every return statement of such a helper returns a value of the same source"""
+    oc = norm((o or {}).get('callee') or '')
+    if o is None or depth == 0 or oc in HANDLE_SOURCES or not o.get('callee_key') or not oc.startswith('cocls::'):
+        return oc
+    g = db.get(o['callee_key'], o.get('callee_inst'))
+    rets = [x for x in (g.events() if g is not None else []) if x.k == 'return']
+    kinds = set()
+    for r in rets:
+        re_ = g.ev(r['ret_ev']) if r.get('ret_ev') is not None else None
+        o2 = value_origin(g, re_) if re_ is not None else None
+        if o2 is None:
+            return oc
+        kinds.add(_handle_source(db, o2, depth - 1))
+    return kinds.pop() if rets and len(kinds) == 1 and kinds <= set(HANDLE_SOURCES) else oc
 
 
 def _inherited_kind(db, f, passed_to_install, thread_bodies, depth=3, seen=None):
@@ -245,13 +261,70 @@ def _inherited_kind(db, f, passed_to_install, thread_bodies, depth=3, seen=None)
     return '%s (inherited: helper reached only from such contexts)' % sorted(kinds)[0] if len(kinds) == 1 else None
 
 
+def _guard_segments(tr):
+    """expanded destructors of locals of the root function on this trace: [(index of the dtor item, index of its leave marker)]"""
+    out = []
+    for i, it in enumerate(tr):
+        if it.k == 'dtor' and it.get('expanded') and it.get('depth', 0) == 0:
+            j = next((j for j in range(i + 1, len(tr)) if tr[j].k == 'leave' and tr[j].get('depth') == 0 and tr[j].ev.get('k') == 'dtor' and tr[j].ev.get('id') == it.get('id')), None)
+            if j is not None:
+                out.append((i, j))
+    return out
+
+
+def _restores_saved(tr, wi):
+    """is the value stored by the write tr[wi] the mode flag as it was when the queue was installed: a local, or a member of the guard object,
+    that was filled from the exchange on the flag (or from a plain read of it)"""
+    w = tr[wi]
+    o, _ = origin_in_trace(tr, wi, w.get('rhs') or '')
+    if o == INSTANCE:
+        return True
+    rd = next((x for x in reversed(tr[:wi]) if x.k == 'read' and x.get('id') == w.get('rhs_ev') and x.get('fn') == w.get('fn') and x.get('depth') == w.get('depth')), None) if w.get('rhs_ev') is not None else None
+    fld = norm((rd or {}).get('lfield') or (rd or {}).get('field') or '')
+    if fld:
+        for j in range(wi - 1, -1, -1):
+            x = tr[j]
+            if x.k == 'write' and norm(x.get('lfield') or x.get('field') or '') == fld:
+                o, _ = origin_in_trace(tr, j, x.get('rhs') or '')
+                return o == INSTANCE
+    return False
+
+
 def drain_before_restore(ctx, db, rid_='C05.drain-before-restore'):
     rid = ctx.rule(rid_, 'ORDER+PATHS', 'the trailer of install_queue_and_call drains the ready queue (flush_queue) before it restores the previous mode flag, on '
                    'every path and unconditionally; the drain loop exits only on an empty queue, and removes a handle from the queue before resuming it', floor=3)
     lams = lambdas_of(db, 'cocls::coro_queue::install_queue_and_call')
-    if not lams:
-        raise Broken('anchor vanished: trailer lambda of install_queue_and_call')
     T = htracer(db)
+    # the code that runs when install_queue_and_call is left is the closure held by the trailer - or the destructor of a scope guard (a local of
+    # a library class: its constructor and destructor are expanded on the variable), judged inside the paths of install_queue_and_call itself
+    FLUSH = callee_is('cocls::coro_queue::queue_impl::flush_queue')
+    guards = {}
+    for f_ in db.fns('cocls::coro_queue::install_queue_and_call')[:2]:
+        for tr in T.traces(f_):
+            if not live(tr):
+                continue
+            for di, li in _guard_segments(tr):
+                body = [j for j in range(di + 1, li) if tr[j].k not in ('enter', 'leave')]
+                fi = next((j for j in body if FLUSH(tr[j])), -1)
+                wi = next((j for j in body if tr[j].k == 'write' and (tr[j].get('path') or '') == INSTANCE), -1)
+                g = db.get(tr[di].get('callee_key'))
+                if g is None or (fi < 0 and wi < 0):
+                    continue
+                st = guards.setdefault(g['key'], [g, None, 0]); st[2] += 1
+                if fi < 0:
+                    st[1] = st[1] or ('a path leaves coroutine mode without draining the ready queue', tr)
+                elif wi < 0:
+                    st[1] = st[1] or ('a path leaves without restoring the previous mode (the thread stays in coroutine mode)', tr)
+                elif wi < fi:
+                    st[1] = st[1] or ('the mode flag is restored before the queue is drained', tr)
+                elif not _restores_saved(tr, wi):
+                    st[1] = st[1] or ('the mode flag is not restored to the saved previous value', tr)
+    if not lams and not guards:
+        raise Broken('anchor vanished: trailer lambda of install_queue_and_call (and no scope guard that drains and restores in its destructor)')
+    for g, bad, n_ in guards.values():
+        ctx.paths(rid, n_)
+        ctx.ob(rid, g, g['key'], bad is None, 'flush_queue precedes the restore of coro_queue::instance on every path' + ('' if not bad else ' -- ' + bad[0]), desc=bad[0] if bad else None,
+               trace=fmt_trace(bad[1]) if bad else None)
     # the local(s) of install_queue_and_call that hold the previous mode flag: initialised by the exchange on instance, or by a plain read of it
     saved_names = set()
     for f_ in db.fns('cocls::coro_queue::install_queue_and_call')[:2]:
@@ -311,12 +384,22 @@ def drain_before_restore(ctx, db, rid_='C05.drain-before-restore'):
             sv = index_of(tr, lambda ev: ev.k == 'decl' and (ev.get('init') or '') == INSTANCE) if plain else 0
             tc = index_of(tr, lambda ev: ev.k == 'construct' and norm(ev.get('callee')) == 'cocls::trailer::trailer')
             dt = [i for i, ev in enumerate(tr) if ev.k == 'dtor' and 'trailer' in (ev.get('type') or '')]
-            if not (ins >= 0 and 0 <= sv <= ins < tc and dt and dt[-1] > tc):
+            if tc < 0:
+                # no trailer: the scope guard whose destructor drains and restores; it may do the exchange in its own constructor, so it is
+                # armed where its declaration completes
+                gs = [di for di, li in _guard_segments(tr) if any(x.k == 'write' and (x.get('path') or '') == INSTANCE for x in tr[di:li])]
+                gv = 'local:%s' % tr[gs[-1]].get('var') if gs else None
+                tc = index_of(tr, lambda ev: ev.k == 'decl' and ev.get('depth', 0) == 0 and ev.get('var') == gv) if gv else -1
+                dt = gs[-1:]
+            # the callable is invoked while the trailer / guard is armed
+            fc = index_of(tr, lambda ev: ev.k == 'call' and ev.get('depth', 0) == 0 and f['params'] and (ev.get('recv') or '') == 'param:' + f['params'][0]['name'])
+            if not (ins >= 0 and 0 <= sv <= ins < tc and dt and dt[-1] > tc and (fc < 0 or tc < fc < dt[-1])):
                 ok = False
         ok = ok and nlive > 0
         ctx.ob(rid, f, f['key'], ok, 'install_queue_and_call saves the previous flag by exchange, installs the thread\'s queue and arms a trailer whose destructor runs on every exit',
                desc='install_queue_and_call no longer exchange+trailer')
-    for f in db.need('cocls::trailer::~trailer')[:1]:
+    uses_trailer = any(e.k == 'construct' and norm(e.get('callee')) == 'cocls::trailer::trailer' for f_ in db.fns('cocls::coro_queue::install_queue_and_call') for e in f_.events())
+    for f in (db.need('cocls::trailer::~trailer')[:1] if uses_trailer or not guards else []):
         n = sum(1 for e in f.events() if e.k == 'call' and (e.get('recv') or '') == 'this->_fn')
         ctx.ob(rid, f, f['key'], n == 1 and not has_back_edge(f) and len([b for b in f['blocks'] if b.get('cond')]) == 0, 'the trailer\'s destructor calls its function exactly once, unconditionally',
                desc='trailer destructor does not call its function unconditionally once')
@@ -356,6 +439,14 @@ def who_writes_instance(ctx, db, rid_='C05.who-writes-instance'):
         return False
     found = who(db, pred)
     allowed = {'cocls::coro_queue::install_queue_and_call'} | {n for n in found if n.startswith('cocls::coro_queue::install_queue_and_call(')}
+    # a scope guard that install_queue_and_call puts on its stack is code of install_queue_and_call: its constructor is reached by a call
+    # (who_ok follows that), its destructor runs where the variable dies - allowed when every object of the class dies in an allowed function
+    for n, lst in list(found.items()):
+        g = lst[0][0]
+        if g.get('kind') == 'dtor' or '::~' in n:
+            sites = [h for h in db.all_instances() if any(e.k == 'dtor' and e.get('callee_key') == g['key'] for e in h.events())]
+            if sites and all(who_ok(db, h, allowed) for h in sites):
+                allowed = allowed | {n}
     check_who(ctx, rid, found, allowed, 'write of coro_queue::instance', db=db)
 
 
@@ -447,6 +538,22 @@ INSTALL_UNGUARDED = {
 }
 
 
+def _answers_active(tr):
+    """does the root function answer "coroutine mode is active" on this trace: the call of is_active, the mode flag compared with null in any
+    spelling - written in place, kept in a bool local first, or returned by an expanded helper -, or a constant on a path whose own mode test
+    agrees with it (if (instance) return true; return false;)"""
+    e = ret_expr(tr) or ''
+    o = origin_in_trace(tr, len(tr), e)[0] or ''
+    for x in (e, o):
+        if x.endswith('is_active)') or says_nonnull(x, INSTANCE):
+            return True
+    c = ret_const(tr)
+    m = mode_of(tr)
+    if c is not None and m is not None:
+        return bool(c) == (m == 'active')
+    return False
+
+
 def install_only_inactive(ctx, db, rid_='C05.install-only-inactive'):
     """a nested install_queue_* shares the thread's single ready queue: its trailer drains everything that is queued, in the middle of the
     running coroutine.  So every site that installs a queue does so on the normal-mode edge of a mode test"""
@@ -466,11 +573,14 @@ def install_only_inactive(ctx, db, rid_='C05.install-only-inactive'):
         while root.get('lambda') and root.get('parent_key') and db.get(root['parent_key']) is not None:
             root = db.get(root['parent_key'])
         why = INSTALL_UNGUARDED.get(f['nname']) or INSTALL_UNGUARDED.get(root['nname'])
+        if not why and root.get('access') != 0:
+            # code extracted from a tabled function into a non-public helper that only that function reaches is still that function's site
+            why = next((w_ for n_, w_ in sorted(INSTALL_UNGUARDED.items()) if n_ != INSTALL[1] and not n_.endswith('initial_awaiter::await_suspend') and only_reached_from(db, root['nname'], {n_})), None)
         if why:
             ok = True
             if f['nname'].endswith('initial_awaiter::await_suspend'):
                 sib = db.fns('cocls::coro_queue::initial_awaiter::await_ready')
-                ok = bool(sib) and all((ret_expr(tr) or '').endswith('is_active)') or says_nonnull(ret_expr(tr) or '', 'global:cocls::coro_queue::instance') for tr in T.traces(sib[0]) if live(tr))
+                ok = bool(sib) and all(_answers_active(tr) for tr in T.traces(sib[0]) if live(tr))
             ctx.ob(rid, f, sites[0]['loc'], ok, 'unguarded by table: ' + why, desc='initial awaiter no longer guarded by await_ready = is_active')
             continue
         # a non-public helper of a class that is reached only from members of that class is judged inside its callers (it is expanded there)
@@ -479,7 +589,7 @@ def install_only_inactive(ctx, db, rid_='C05.install-only-inactive'):
             cs_ = [g for g in db.all_instances() if any(x.k == 'call' and x.get('callee_key') == f['key'] for x in g.events()) and is_helper(db, g, f)]
             if cs_ and len({g['key'] for g in cs_}) == len({c for c in callers_of(db, f['nname'])}):
                 roots_ = list({g['key']: g for g in cs_}.values())
-        trs = [t for r_ in roots_ for t in T.traces(r_) if live(t)]
+        trs = [t for r_ in roots_ for t in T.traces(r_) if live(t) and consistent(t)]
         ctx.paths(rid, len(trs))
         for e in sites:
             bad = None; n = 0
